@@ -21,6 +21,20 @@ func TestDebugCase(t *testing.T) {
 	if err := json.Unmarshal(rec.Case, &c); err != nil {
 		t.Fatal(err)
 	}
-	o := propNullInUnion.Run(c)
-	fmt.Println("outcome:", o.Fail, o.Known)
+	c, _ = mapSeq(c, nullMemberToNullUnion)
+	for _, n := range rtNeutralisers {
+		if nc, changed := n.apply(c); changed {
+			c = nc
+		}
+	}
+	fail := c.check()
+	fmt.Println("FAIL:", fail.mode, fail.kind, fail.idx)
+	fmt.Println(fail.text)
+	fmt.Println("diverges:", orderDiverges(fail.text, fail.streamIdx()))
+	got, err := readTextOrder(fail.text)
+	fmt.Println("readTextOrder:", len(got), err)
+	for i := 0; i < len(got) && i <= fail.idx; i++ {
+		k, m := compare(c.Seq.Vals[i], got[i])
+		fmt.Println(i, k, clip(m))
+	}
 }
